@@ -66,7 +66,8 @@ TABLE = {
     "compose.id":        (lambda v: _is_str(v) and v != "" and _has_8_digits(v), [None, "", "no-date-id", "x-1234567", 5]),
     "compose.type":      (lambda v: v in ids.COMPOSE_TYPES_DOC, ["bogus", "Production", "", None]),
     "compose.date":      (lambda v: _is_str(v) and len(v) == 8 and v.isdigit() and v.isascii(),
-                          ["2016010", "201601011", "2016-1-1", "abcdefgh", None, 20160101]),
+                          ["2016010", "201601011", "2016-1-1", "abcdefgh", None, 20160101,
+                           "2016013", "201613", "201601 3", " 2016013", "2016013\n"]),     # (calendar parsers are lenient about padding)
     "compose.respin":    (_is_int, ["1", None, 1.5]),
     "compose.label":     (_label_ok, ["GA", "RC", "RC-1", "rc-1.0", "RC-1.0.1", "Gold-1.0", 5]),
     "compose.final":     (lambda v: isinstance(v, bool), ["yes", 1, None]),
